@@ -186,7 +186,7 @@ def _run(mod: Any, pid: str, tier: str, seed: int, budget: float | None, t0: flo
             f = _check_plain(mod, c)
             return f is not None and f.bucket == _b and not core.sig_hit(mod, kfs, c, f)
 
-        frozen = tuple(getattr(mod, "SHRINK_FROZEN", ()))
+        frozen = tuple(getattr(mod, "SHRINK_FROZEN", ())) + ("kind",)  # the discriminator is never shrunk (signatures read it)
         if os.environ.get("VERIF_NOSHRINK"):
             for d_, _c in cands[:3]:
                 print(f"RAW bucket={b}\n{d_[:1500]}")
